@@ -18,7 +18,7 @@ func transWriter(repo string, f *Facts) {
 	if p == nil {
 		return
 	}
-	f.trans.WriteString("\n/-! ## proto/writer.go -/\nsection Writer\nopen Model\nopen Model.VecWriter (W Seg Mem Sink writeBuffers resolveSeg stagedLen)\n")
+	f.trans.WriteString("\n/-! ## proto/writer.go -/\nnamespace Writer\nopen Model\nopen Model.VecWriter (W Seg Mem Sink writeBuffers resolveSeg stagedLen)\n")
 	defer f.trans.WriteString("\nend Writer\n")
 
 	// all methods of Writer (a new mutating method is a new way to reach the vector)
